@@ -240,6 +240,32 @@ theorem e2e_write {t : Tables} (ht : TablesOk t) (mp : Maps) (imp : Str → Str 
 
 end
 
+/-! ## An error raised on a frappy node comes back as the same error
+
+What a node writes into a report for an error `e` is `[e.name, str(e)]` (`dispatcher.py:50`, `handler.py:150`), where `str`
+is `SECoPError.format` (`formatErr`: the class name in front of the text unless the class is the one registered for its
+error name).  `make_secop_error` inverts this. -/
+
+/-- **error_roundtrip**: an error object of a class of `errors.py`, with a text free of line breaks, formatted by the
+node and rebuilt by the client is the same object — same Python class, same error name, same text.  For the class
+registered for its error name the text must not itself start with `<another class of the same error name>: ` (these two
+errors are reported with the same words; see `NoRefinementPrefix`). -/
+theorem error_roundtrip {t : Tables} (e : ErrObj) (hok : ErrOk t e) (hword : e.pycls.all isWordChar = true)
+    (hnl : '\n' ∉ e.arg) (hpre : dictGet t.name2class e.name = some e.pycls → NoRefinementPrefix t e) :
+    makeSecopError t (some e.name) (formatErr t e) = e :=
+  makeSecopError_format e hok hword hnl hpre
+
+/-- table fact: every class of `errors.py` is an identifier, carries an error name some class is registered for, and that
+class carries the same name -/
+theorem source_classes_ok :
+    ∀ c ∈ srcTables.clsname2name, ErrOk srcTables ⟨c.1, c.2, []⟩ ∧ c.1.all isWordChar = true := by decide +kernel
+
+/-- … hence the round trip holds for every class of `errors.py` and every such text -/
+theorem source_error_roundtrip (c : Str × Str) (hc : c ∈ srcTables.clsname2name) (arg : Str) (hnl : '\n' ∉ arg)
+    (hpre : dictGet srcTables.name2class c.2 = some c.1 → NoRefinementPrefix srcTables ⟨c.1, c.2, arg⟩) :
+    makeSecopError srcTables (some c.2) (formatErr srcTables ⟨c.1, c.2, arg⟩) = ⟨c.1, c.2, arg⟩ :=
+  error_roundtrip ⟨c.1, c.2, arg⟩ (source_classes_ok c hc).1 (source_classes_ok c hc).2 hnl hpre
+
 /-! ## End to end with the datatype model in place of the oracles
 
 The hypotheses `hwr`/`hrd` of `e2e_write`/`e2e_read` are discharged from the C02 development for the concrete codec
@@ -490,6 +516,24 @@ example :
 its low bits -/
 example : writeOkB (fun a b : Int => a == b) 9007199254740993 [9007199254740993] 5 (some ⟨.value 5, 0⟩) = true ∧
     writeOkB (fun a b : Int => a == b) 9007199254740993 [9007199254740992] 5 (some ⟨.value 5, 0⟩) = false := by decide
+
+/-- `error_roundtrip` is not vacuous: a refinement class (`ConfigError`, error name `InternalError`) is written in front
+of the text and found again; the class registered for its name travels with the bare text -/
+example : formatErr srcTables ⟨"ConfigError".toList, "InternalError".toList, "bad cfg: x".toList⟩ = "ConfigError: bad cfg: x".toList ∧
+    makeSecopError srcTables (some "InternalError".toList) "ConfigError: bad cfg: x".toList =
+      ⟨"ConfigError".toList, "InternalError".toList, "bad cfg: x".toList⟩ ∧
+    makeSecopError srcTables (some "HardwareError".toList) (formatErr srcTables ⟨"HardwareError".toList, "HardwareError".toList, "boom".toList⟩) =
+      ⟨"HardwareError".toList, "HardwareError".toList, "boom".toList⟩ := by decide +kernel
+
+example : makeSecopError srcTables (some "InternalError".toList)
+      (formatErr srcTables ⟨"ConfigError".toList, "InternalError".toList, "bad cfg: x".toList⟩) =
+    ⟨"ConfigError".toList, "InternalError".toList, "bad cfg: x".toList⟩ :=
+  source_error_roundtrip ("ConfigError".toList, "InternalError".toList) (by decide +kernel) "bad cfg: x".toList (by decide)
+    (fun h => absurd h (by decide +kernel))
+
+/-- the excluded case is real: these two different errors are reported with the same words -/
+example : formatErr srcTables ⟨"InternalError".toList, "InternalError".toList, "ConfigError: x".toList⟩ =
+    formatErr srcTables ⟨"ConfigError".toList, "InternalError".toList, "x".toList⟩ := by decide +kernel
 
 end example_
 
